@@ -141,6 +141,14 @@ func (p *plan) generate(yield func(kase)) {
 		yield(kase{Seq: seq, Route: v.route, Variant: v.name, Ident: id.Name, Loggers: loggers, Devs: devs, Passes: passes, Req: b.render()})
 	}
 
+	emitSeq := func(v *variant, id identity, pre, b *build, devs []dev) {
+		seq++
+
+		pr := pre.render()
+		yield(kase{Seq: seq, Route: v.route, Variant: v.name, Ident: id.Name, Loggers: "server", Devs: devs, Passes: 1, Req: b.render(), Prelude: &pr})
+		p.counts["after-a-well-formed-request"]++
+	}
+
 	only := os.Getenv("C40_ONLY")
 	full := p.thorough && os.Getenv("C40_DEPTH") == "full"
 	deep := map[string]bool{"pathvar": true, "param": true, "body": true, "field": true}
@@ -264,6 +272,12 @@ func (p *plan) generate(yield func(kase)) {
 				}
 			}
 
+			// two-request sequences (administrator): the deviated request is preceded, in the same pristine
+			// world, by the well-formed request, so that what the first one cached is what the second one meets
+			if admin && reads {
+				p.sequences(v, id, base, slots, emitSeq)
+			}
+
 			if p.maxDevs < 2 || v.lean || (!admin && !full) {
 				continue
 			}
@@ -308,6 +322,56 @@ func (p *plan) generate(yield func(kase)) {
 					emit(v, id, "server", b, []dev{{Slot: a.name, Kind: oa.kind, Label: oa.label}, {Slot: c.name, Kind: oc.kind, Label: oc.label}}, 2)
 					p.counts["two-deviations"]++
 				}
+			}
+		}
+	}
+}
+
+// assetFixtures are the assets the sequences of the asset routes are run on: two
+// that are cached in minified (shorter) form, one rendered, three served as they are.
+var assetFixtures = []string{"verif/app.js", "verif/app.css", "dashboard/dashboard-core.js", "test.asset.md", "verif/plain.txt", "dashboard/logo.png"}
+
+// sequences emits, for a GET/HEAD route, cases of two requests: a plain
+// well-formed GET first, then the deviated request. Asset routes: every Range
+// value on every fixture (the first request is always a GET, also for the HEAD
+// route). Other routes: the first core value of Range, If-None-Match,
+// Accept-Encoding and Accept.
+func (p *plan) sequences(v *variant, id identity, base *build, slots []slot, emit func(v *variant, id identity, pre, b *build, devs []dev)) {
+	after := dev{Slot: "after-full-GET", Kind: "sequence", Label: "preceded by the well-formed GET of the same object"}
+	isAsset := strings.HasPrefix(v.flags.Endpoint, "/assets/")
+
+	for si := range slots {
+		s := &slots[si]
+
+		switch {
+		case isAsset && s.name == "header:Range":
+			for _, item := range assetFixtures {
+				pre := base.clone()
+				pre.method = "GET"
+				pre.vars["item..."] = item
+
+				for oi := range s.opts {
+					o := &s.opts[oi]
+					b := base.clone()
+					b.vars["item..."] = item
+					o.apply(b)
+					emit(v, id, pre, b, []dev{after, {Slot: s.name, Kind: o.kind, Label: o.label + " on " + item}})
+				}
+			}
+		case s.name == "header:Range" || s.name == "header:If-None-Match" || s.name == "header:Accept-Encoding" || s.name == "header:Accept":
+			for oi := range s.opts {
+				o := &s.opts[oi]
+				if !o.core {
+					continue
+				}
+
+				pre := base.clone()
+				pre.method = "GET"
+				b := base.clone()
+				o.apply(b)
+				emit(v, id, pre, b, []dev{after, {Slot: s.name, Kind: o.kind, Label: o.label}})
+
+				break
 			}
 		}
 	}
